@@ -1,50 +1,52 @@
 /-
-C14 — the VM heap never frees or loses count of a referenced object (property theorems only).
-`RcInv roots heap extra`: every live object's count ≥ the number of references from the roots
-(operand stack incl. locals, globals, frame closures), from live objects and from `extra`
-(values the handler holds in C locals).  `Closed`: no reference to a dead address.
+C14 — the VM heap never frees or loses count of a referenced object (property theorems only;
+the lemmas are in Lemmas/HeapInv, HeapStep, HeapOps, HeapRun).
+
+`HeapOk s` (= `VOK s` = `HX (rootsOf s) s.heap []`): at an instruction boundary
+  * every live object's count is at least the number of references to it from the operand stack
+    (locals included), the globals, the closures of the active frames and from other live objects (`rc`),
+  * everything referenced from there is live (`closed`) - no dangling value,
+  * the object behind a value has the value's kind (`kinds`),
+  * addresses are unique, allocation ids only grow, the `dangling` flag (set whenever the C code would
+    touch a freed object) is clear.
+The theorems say that this holds in the initial state, is kept by every instruction of the VM model
+for every operand, stack height and heap, hence holds in every reachable state of every module, with
+or without verifier, for any instruction budget.
 -/
-import NanoVerif.Lemmas.HeapInv
-import NanoVerif.Model.Vm
+import NanoVerif.Lemmas.HeapRun
 namespace NanoVerif.C14
 open Gen (Opc)
 
-/-- roots of a VM state -/
-def rootsOf (c : Core) (frames : List Frame) : List Val :=
-  c.stack ++ c.globals ++ frames.filterMap (fun fr => fr.closure.map Val.clos)
+/-- the heap invariant of a VM state -/
+abbrev HeapOk (s : VmState) : Prop := VOK s
 
-/-- the heap invariant of a VM state (at an instruction boundary nothing is held in C locals) -/
-structure HeapOk (c : Core) (frames : List Frame) : Prop where
-  nodup : c.heap.keys.Nodup
-  fresh : ∀ k ∈ c.heap.keys, k < c.heap.next
-  clean : c.heap.dangling = false
-  rc : RcInv (rootsOf c frames) c.heap []
-  closed : Closed (rootsOf c frames) c.heap []
+theorem heap_ok_init : HeapOk {} := vok_init
 
-theorem heap_ok_init : HeapOk {} [] := by
-  refine ⟨by simp [Heap.keys], by simp [Heap.keys], rfl, ?_, ?_⟩
-  · intro p hp; simp at hp
-  · intro a ha; simp [rootsOf, heapRefs] at ha
-
-/-- No dangling value, count at least in-degree: what `HeapOk` means for a reachable state. -/
-theorem no_dangling (c : Core) (frames : List Frame) (h : HeapOk c frames) :
-    (∀ v ∈ rootsOf c frames, ∀ a, v.addr? = some a → ∃ cell, c.heap.get? a = some cell) ∧
-    (∀ a cell, c.heap.get? a = some cell →
-      (refsOf (rootsOf c frames) ++ heapRefs c.heap).count a ≤ cell.rc) := by
-  constructor
+/-- what `HeapOk` means for a state: every value reachable from the stack, a local, a global, a frame's
+    closure or a live object points at a live object of its kind, and every live object's count is at least
+    the number of such references -/
+theorem no_dangling (s : VmState) (h : HeapOk s) :
+    (∀ v ∈ rootsOf s.toCore s.frames, ∀ a, v.addr? = some a →
+        ∃ cell, s.heap.get? a = some cell ∧ v.okind = some cell.obj.kind) ∧
+    (∀ a cell, s.heap.get? a = some cell → ∀ v ∈ cell.obj.kids, ∀ b, v.addr? = some b →
+        ∃ cell', s.heap.get? b = some cell' ∧ v.okind = some cell'.obj.kind) ∧
+    (∀ a cell, s.heap.get? a = some cell →
+        (refsOf (rootsOf s.toCore s.frames) ++ heapRefs s.heap).count a ≤ cell.rc) ∧
+    s.heap.dangling = false := by
+  refine ⟨?_, ?_, ?_, h.clean⟩
   · intro v hv a ha
-    apply Heap.mem_key_get?
-    apply h.closed a
-    simp only [refsOf_nil, List.append_nil, List.mem_append]
-    left
-    show a ∈ List.filterMap Val.addr? (rootsOf c frames)
-    exact List.mem_filterMap.mpr ⟨v, hv, ha⟩
+    obtain ⟨cell, hg⟩ := Heap.mem_key_get? (HX.live h (List.mem_append.mpr (Or.inl hv)) ha)
+    exact ⟨cell, hg, h.kinds.1 v (List.mem_append.mpr (Or.inl hv)) a cell ha (Heap.get?_some_mem hg)⟩
+  · intro a cell hg v hv b hb
+    have hm := Heap.get?_some_mem hg
+    obtain ⟨cell', hg'⟩ := Heap.mem_key_get? (HX.live_kid h hm hv hb)
+    exact ⟨cell', hg', h.kinds.2 (a, cell) hm v hv b cell' hb (Heap.get?_some_mem hg')⟩
   · intro a cell hg
     have := h.rc (a, cell) (Heap.get?_some_mem hg)
     simpa using this
 
 /-- `vm_release` (recursive, any work list): objects are freed only when nothing references them
-    any more, nothing dead is touched, the invariant is kept. -/
+    any more, nothing dead is touched, the invariant is kept -/
 theorem release_safe (roots : List Val) (h : Heap) (ws extra : List Val) (hn : h.keys.Nodup)
     (hi : RcInv roots h (ws ++ extra)) (hc : Closed roots h (ws ++ extra)) :
     RcInv roots (h.release ws) extra ∧ Closed roots (h.release ws) extra ∧ (h.release ws).keys.Nodup
@@ -60,484 +62,83 @@ theorem freed_once (h : Heap) (o : Obj) (a : Nat) (hfresh : ∀ k ∈ h.keys, k 
   simp only [List.map_append, List.map_cons, List.map_nil, List.mem_append, List.mem_singleton, not_or]
   exact ⟨⟨hna, by omega⟩, by omega⟩
 
-/-! ### instruction handlers -/
+/-- `vm_release(old); slot = new` on a child of an object somebody still holds (ARR_SET, ARR_REMOVE,
+    STRUCT_SET, STORE_UPVALUE release the old child while the container still points at it): the release can
+    never free the container itself, and the result is the same as taking the child out first -/
+theorem release_then_store (h : Heap) (ws : List Val) (a : Nat) (o : Obj) (halive : a ∈ (h.release ws).keys) :
+    (h.setObj a o).release ws = (h.release ws).setObj a o :=
+  release_setObj h ws a o halive
 
-theorem pop_spec (c : Core) : (c.pop.1.stack ++ (if c.stack = [] then [] else [c.pop.2]) = c.stack) ∧
-    (c.stack = [] → c.pop.2 = .void) ∧ c.pop.1.heap = c.heap ∧ c.pop.1.globals = c.globals := by
-  unfold Core.pop
-  cases hl : c.stack.getLast? with
-  | none =>
-    have : c.stack = [] := List.getLast?_eq_none_iff.mp hl
-    simp [this]
-  | some v =>
-    have hne : c.stack ≠ [] := by intro e; simp [e] at hl
-    refine ⟨?_, fun e => absurd e hne, rfl, rfl⟩
-    simp only [hne, if_false]
-    obtain ⟨ys, hys⟩ := List.getLast?_eq_some_iff.mp hl
-    rw [hys]; simp
+/-- **every data instruction keeps the heap invariant**: all opcodes of `vm_core_execute` other than the four
+    call/return instructions (strings, arrays, structs, unions, tuples, closures, upvalues, casts, printing,
+    arithmetic on any operand kinds), for every operand, stack height and heap - including stacks that are too
+    short, wrong operand kinds and indices out of range -/
+theorem instr_heap_ok (m : Module) (s : VmState) (is : Nat) (op : Opc) (args : List Nat) (h : HeapOk s) :
+    OK (execData' m (s.frames.headD default) s.toCore is op args).1 s.frames :=
+  execData_ok m _ s.toCore s.frames is args op (hfr_head s.frames) h
 
-/-- POP / GC_RELEASE keep the heap invariant -/
-theorem pop_ok (c : Core) (frames : List Frame) (h : HeapOk c frames) :
-    HeapOk ((c.pop.1).release c.pop.2) frames := by
-  obtain ⟨hs, hv, hh, hg⟩ := pop_spec c
-  have hroots : ∀ x, (refsOf (rootsOf c.pop.1 frames) ++ refsOf [c.pop.2]).count x ≤ (refsOf (rootsOf c frames) ++ refsOf []).count x := by
-    intro x
-    unfold rootsOf
-    rw [hg, ← hs]
-    by_cases he : c.stack = []
-    · simp only [he, if_true, List.append_nil]
-      rw [hv he]
-      have : List.filterMap Val.addr? [Val.void] = [] := rfl
-      simp [refsOf, this]
-    · simp only [he, if_false, refsOf_append, List.count_append, refsOf_nil, List.count_nil]
-      omega
-  have hmem : ∀ x, x ∈ refsOf (rootsOf c.pop.1 frames) ++ refsOf [c.pop.2] → x ∈ refsOf (rootsOf c frames) ++ refsOf [] := by
-    intro x hx
-    have := hroots x
-    have hp : 0 < (refsOf (rootsOf c.pop.1 frames) ++ refsOf [c.pop.2]).count x := List.count_pos_iff.mpr hx
-    exact List.count_pos_iff.mp (by omega)
-  have hi' : RcInv (rootsOf c.pop.1 frames) c.pop.1.heap ([c.pop.2] ++ []) := by
-    rw [hh]; exact RcInv_of_count _ _ _ _ _ hroots h.rc
-  have hc' : Closed (rootsOf c.pop.1 frames) c.pop.1.heap ([c.pop.2] ++ []) := by
-    rw [hh]; exact Closed_of_mem _ _ _ _ _ hmem h.closed
-  obtain ⟨r1, r2, r3, r4, r5⟩ := release_inv (rootsOf c.pop.1 frames) c.pop.1.heap [c.pop.2] [] (by rw [hh]; exact h.nodup) hi' hc'
-  unfold Core.release Heap.release1
-  refine ⟨r3, ?_, by rw [r4, hh]; exact h.clean, r1, r2⟩
-  intro k hk
-  rw [r5, hh]
-  exact h.fresh k (by rw [← hh]; exact release_keys_subset _ _ k hk)
+/-- **one iteration of the dispatch loop keeps the heap invariant**: fetch and decode, any instruction
+    (CALL, CALL_INDIRECT, CLOSURE_CALL with the closure reference moving into the frame, RET with the release
+    of the frame's slots and closure), decode errors, the implicit return at the end of a function -/
+theorem step_heap_ok (m : Module) (s : VmState) (h : HeapOk s) : HeapOk (step m s).1 := step_ok m s h
 
-theorem peek_mem (c : Core) : c.peek 0 = .void ∨ c.peek 0 ∈ c.stack := by
-  unfold Core.peek
-  by_cases h : 0 ≥ c.stack.length
-  · simp [h]
-  · right
-    simp only [h, if_false]
-    have hlt : c.stack.length - 1 - 0 < c.stack.length := by omega
-    rw [List.getD_eq_getElem?_getD, List.getElem?_eq_getElem hlt]
-    simp
+/-- the state after `n` iterations of the dispatch loop (stops when the core leaves `running`) -/
+def stepN (m : Module) : Nat → VmState → VmState
+  | 0, s => s
+  | n+1, s => match step m s with
+    | (s', .running) => stepN m n s'
+    | (s', _) => s'
 
-/-- DUP (peek, retain, push) keeps the heap invariant: the new stack slot is a counted reference -/
-theorem dup_ok (c : Core) (frames : List Frame) (h : HeapOk c frames) :
-    HeapOk ((c.retain (c.peek 0)).push (c.peek 0)) frames := by
-  have hlive : ∀ a, (c.peek 0).addr? = some a → a ∈ c.heap.keys := by
-    intro a ha
-    rcases peek_mem c with hv | hm
-    · rw [hv] at ha; cases ha
-    · apply h.closed a
-      simp only [refsOf_nil, List.append_nil, List.mem_append]
-      left
-      show a ∈ List.filterMap Val.addr? (rootsOf c frames)
-      exact List.mem_filterMap.mpr ⟨_, by unfold rootsOf; simp [hm], ha⟩
-  obtain ⟨r1, r2, r3, r4, r5⟩ := retain_inv (rootsOf c frames) c.heap (c.peek 0) [] h.nodup h.rc h.closed hlive
-  have hroots : rootsOf ((c.retain (c.peek 0)).push (c.peek 0)) frames
-      = c.stack ++ [c.peek 0] ++ c.globals ++ frames.filterMap (fun fr => fr.closure.map Val.clos) := by
-    simp [rootsOf, Core.push, Core.retain]
-  have hheap : ((c.retain (c.peek 0)).push (c.peek 0)).heap = c.heap.retain (c.peek 0) := by
-    simp [Core.push, Core.retain]
-  refine ⟨by rw [hheap]; exact r3, ?_, by rw [hheap, r4]; exact h.clean, ?_, ?_⟩
-  · intro k hk
-    rw [hheap] at hk ⊢
-    rw [r5]
-    have : (c.heap.retain (c.peek 0)).keys = c.heap.keys := by
-      unfold Heap.retain
-      cases (c.peek 0).addr? with
-      | none => rfl
-      | some a =>
-        simp only
-        cases c.heap.get? a with
-        | none => rfl
-        | some cell => simp only; exact keys_set _ _ _
-    rw [this] at hk
-    exact h.fresh k hk
-  · rw [hheap, hroots]
-    refine RcInv_of_count (rootsOf c frames) _ _ [c.peek 0] [] ?_ r1
-    intro x
-    simp only [rootsOf, refsOf_append, List.count_append, refsOf_nil, List.count_nil]
-    omega
-  · rw [hheap, hroots]
-    refine Closed_of_mem (rootsOf c frames) _ _ [c.peek 0] [] ?_ r2
-    intro x hx
-    simp only [rootsOf, refsOf_append, List.mem_append, refsOf_nil, List.not_mem_nil, or_false] at hx ⊢
-    rcases hx with ((h1 | h1) | h1) | h1
-    · exact Or.inl (Or.inl (Or.inl h1))
-    · exact Or.inr h1
-    · exact Or.inl (Or.inl (Or.inr h1))
-    · exact Or.inl (Or.inr h1)
+/-- **the invariant holds in every reachable state**: after any number of instructions from any state that
+    satisfies it, for any module whatsoever (verified or not) -/
+theorem reachable_heap_ok (m : Module) (n : Nat) : ∀ s, HeapOk s → HeapOk (stepN m n s) := by
+  induction n with
+  | zero => intro s h; exact h
+  | succ k ih =>
+    intro s h
+    have hs := step_heap_ok m s h
+    unfold stepN
+    split
+    · rename_i s' heq; rw [heq] at hs; exact ih s' hs
+    · rename_i s' o hne heq; rw [heq] at hs; exact hs
 
-/-- pushing a non-reference (all PUSH_* constants, ENUM_VAL, OPAQUE_NULL) keeps the invariant -/
-theorem push_scalar_ok (c : Core) (frames : List Frame) (v : Val) (hv : v.addr? = none) (h : HeapOk c frames) :
-    HeapOk (c.push v) frames := by
-  have hroots : ∀ x, (refsOf (rootsOf (c.push v) frames) ++ refsOf []).count x ≤ (refsOf (rootsOf c frames) ++ refsOf []).count x := by
-    intro x
-    have : refsOf [v] = [] := by rw [refsOf_cons, hv]; rfl
-    simp only [rootsOf, Core.push, refsOf_append, List.count_append, this, List.count_nil]
-    omega
-  have hmem : ∀ x, x ∈ refsOf (rootsOf (c.push v) frames) ++ refsOf [] → x ∈ refsOf (rootsOf c frames) ++ refsOf [] := by
-    intro x hx
-    have := hroots x
-    have hp : 0 < (refsOf (rootsOf (c.push v) frames) ++ refsOf []).count x := List.count_pos_iff.mpr hx
-    exact List.count_pos_iff.mp (by omega)
-  exact ⟨h.nodup, h.fresh, h.clean, RcInv_of_count _ _ _ _ _ hroots h.rc, Closed_of_mem _ _ _ _ _ hmem h.closed⟩
+/-- **`vm_execute` on any module, with any instruction budget, ends in a state that satisfies the invariant**
+    (`__init__`, entry point, frames, traps) -/
+theorem execute_heap_ok (m : Module) (fuel : Nat) : HeapOk (execute m fuel).1 := execute_ok m fuel
 
-/-- the values a handler still holds in C locals are released one after the other -/
-def releaseAll (hp : Heap) (held : List Val) : Heap := held.foldl (fun h v => h.release1 v) hp
+/-- **no program can observe a dangling value**: the model's outcome `dangling` - raised wherever the C code
+    would dereference a freed object or find an object of another kind behind a value - is unreachable -/
+theorem never_dangling (m : Module) (fuel : Nat) (w : String) : (execute m fuel).2 ≠ .dangling w :=
+  execute_never_dangling m fuel w
 
-theorem releaseAll_inv (roots : List Val) (held : List Val) :
-    ∀ hp : Heap, hp.keys.Nodup → (∀ k ∈ hp.keys, k < hp.next) → hp.dangling = false →
-      RcInv roots hp held → Closed roots hp held →
-      (releaseAll hp held).keys.Nodup ∧ (∀ k ∈ (releaseAll hp held).keys, k < (releaseAll hp held).next) ∧
-        (releaseAll hp held).dangling = false ∧ RcInv roots (releaseAll hp held) [] ∧ Closed roots (releaseAll hp held) [] := by
-  induction held with
-  | nil => intro hp hn hf hd hi hc; exact ⟨hn, hf, hd, hi, hc⟩
-  | cons v r ih =>
-    intro hp hn hf hd hi hc
-    obtain ⟨r1, r2, r3, r4, r5⟩ := release_inv roots hp [v] r hn (by simpa using hi) (by simpa using hc)
-    have hf' : ∀ k ∈ (hp.release [v]).keys, k < (hp.release [v]).next := by
-      intro k hk; rw [r5]; exact hf k (release_keys_subset _ _ k hk)
-    exact ih (hp.release [v]) r3 hf' (by rw [r4]; exact hd) r1 r2
-
-/-- **general handler shape**: a handler that replaces the operand stack by `st'` and releases the values
-    `held`, where `st'` and `held` together reference no address more often than the old stack did (it popped
-    `held`, pushed only non-references, dropped nothing it did not release or releases what it popped) keeps
-    the heap invariant -/
-theorem consume_ok (c : Core) (frames : List Frame) (h : HeapOk c frames) (st' held : List Val)
-    (hcount : ∀ x, (refsOf st' ++ refsOf held).count x ≤ (refsOf c.stack).count x) :
-    HeapOk { c with stack := st', heap := releaseAll c.heap held } frames := by
-  have hroots : ∀ x, (refsOf (rootsOf { c with stack := st' } frames) ++ refsOf held).count x ≤ (refsOf (rootsOf c frames) ++ refsOf []).count x := by
-    intro x
-    have := hcount x
-    simp only [rootsOf, refsOf_append, List.count_append, refsOf_nil, List.count_nil] at this ⊢
-    omega
-  have hmem : ∀ x, x ∈ refsOf (rootsOf { c with stack := st' } frames) ++ refsOf held → x ∈ refsOf (rootsOf c frames) ++ refsOf [] := by
-    intro x hx
-    have := hroots x
-    have hp : 0 < (refsOf (rootsOf { c with stack := st' } frames) ++ refsOf held).count x := List.count_pos_iff.mpr hx
-    exact List.count_pos_iff.mp (by omega)
-  obtain ⟨a1, a2, a3, a4, a5⟩ := releaseAll_inv (rootsOf { c with stack := st' } frames) held c.heap h.nodup h.fresh h.clean
-    (RcInv_of_count _ _ _ _ _ hroots h.rc) (Closed_of_mem _ _ _ _ _ hmem h.closed)
-  exact ⟨a1, a2, a3, a4, a5⟩
-
-theorem heapOk_congr (c c' : Core) (frames : List Frame) (hs : c'.stack = c.stack) (hg : c'.globals = c.globals)
-    (hh : c'.heap = c.heap) (h : HeapOk c frames) : HeapOk c' frames := by
-  have hr : rootsOf c' frames = rootsOf c frames := by unfold rootsOf; rw [hs, hg]
-  exact ⟨by rw [hh]; exact h.nodup, by rw [hh]; exact h.fresh, by rw [hh]; exact h.clean,
-    by rw [hh, hr]; exact h.rc, by rw [hh, hr]; exact h.closed⟩
-
-/-- `consume_ok` for any result state with that stack, those globals and that heap -/
-theorem consume_ok2 (c c' : Core) (frames : List Frame) (h : HeapOk c frames) (st' held : List Val)
-    (hcount : ∀ x, (refsOf st' ++ refsOf held).count x ≤ (refsOf c.stack).count x)
-    (hs : c'.stack = st') (hg : c'.globals = c.globals) (hh : c'.heap = releaseAll c.heap held) : HeapOk c' frames :=
-  heapOk_congr { c with stack := st', heap := releaseAll c.heap held } c' frames hs hg hh (consume_ok c frames h st' held hcount)
-
-theorem pop_fields (c : Core) : c.pop.1.globals = c.globals ∧ c.pop.1.heap = c.heap := by
-  unfold Core.pop
-  cases c.stack.getLast? <;> exact ⟨rfl, rfl⟩
-
-theorem pop_count (c : Core) (x : Nat) :
-    (refsOf c.pop.1.stack ++ refsOf [c.pop.2]).count x ≤ (refsOf c.stack).count x := by
-  obtain ⟨hs, hv, _, _⟩ := pop_spec c
-  by_cases he : c.stack = []
-  · have hs' : c.pop.1.stack = [] := by
-      simp only [he, if_true, List.append_nil] at hs; rw [hs]
-    rw [hv he, hs', he]
-    have : refsOf [Val.void] = [] := rfl
-    simp [this]
-  · simp only [he, if_false] at hs
-    rw [← hs]
-    simp [refsOf_append, List.count_append]
-
-/-- the comparison and logic handlers (EQ NE LT LE GT GE AND OR): two operands popped, a boolean pushed,
-    both operands released - for operands of any kind, also when the stack is too short -/
-theorem binCompare_ok (c : Core) (frames : List Frame) (f : Heap → Val → Val → Option Bool) (h : HeapOk c frames) :
-    HeapOk (binCompare c f).1 frames := by
-  have hc1 := pop_count c
-  have hc2 := pop_count c.pop.1
-  obtain ⟨g1, h1⟩ := pop_fields c
-  obtain ⟨g2, h2⟩ := pop_fields c.pop.1
-  have hcnt : ∀ (top : List Val) (held : List Val), refsOf top = [] → (∀ x, (refsOf held).count x ≤ (refsOf [c.pop.1.pop.2] ++ refsOf [c.pop.2]).count x) →
-      ∀ x, (refsOf (c.pop.1.pop.1.stack ++ top) ++ refsOf held).count x ≤ (refsOf c.stack).count x := by
-    intro top held htop hheld x
-    have a := hc1 x; have b := hc2 x; have d := hheld x
-    simp only [refsOf_append, List.count_append, htop, List.count_nil] at a b d ⊢
-    omega
-  unfold binCompare
-  simp only
-  cases hf : f c.pop.1.pop.1.heap c.pop.1.pop.2 c.pop.2 with
-  | none =>
-    simp only [unsup]
-    exact consume_ok2 c _ frames h c.pop.1.pop.1.stack [] (by
-      intro x; have := hcnt [] [] rfl (by intro y; simp [refsOf]) x; simpa using this) rfl (by rw [g2, g1]) (by rw [h2, h1]; rfl)
-  | some r =>
-    simp only [cont]
-    exact consume_ok2 c _ frames h (c.pop.1.pop.1.stack ++ [.bool r]) [c.pop.1.pop.2, c.pop.2]
-      (hcnt [.bool r] _ rfl (by intro y; simp [refsOf_cons, List.count_append]))
-      (by simp [Core.push, Core.release]) (by simp [Core.push, Core.release, g2, g1])
-      (by simp [Core.push, Core.release, releaseAll, h2, h1])
-
-/-- one operand popped and released, non-references pushed: NOT, CAST_BOOL, JMP_TRUE, JMP_FALSE, ASSERT,
-    PRINT, PRINTLN, NEG and the casts on scalars all have this shape -/
-theorem pop1_ok (c c' : Core) (frames : List Frame) (h : HeapOk c frames) (news : List Val) (hn : refsOf news = [])
-    (hs : c'.stack = c.pop.1.stack ++ news) (hg : c'.globals = c.globals) (hh : c'.heap = c.heap.release1 c.pop.2) :
-    HeapOk c' frames := by
-  refine consume_ok2 c c' frames h (c.pop.1.stack ++ news) [c.pop.2] ?_ hs hg (by rw [hh]; rfl)
-  intro x
-  have := pop_count c x
-  simp only [refsOf_append, List.count_append, hn, List.count_nil] at this ⊢
-  omega
-
-theorem not_ok (m : Module) (fr : Frame) (c : Core) (frames : List Frame) (is : Nat) (args : List Nat) (h : HeapOk c frames) :
-    HeapOk (execData' m fr c is .NOT args).1 frames := by
-  obtain ⟨g1, h1⟩ := pop_fields c
-  simp only [execData', cont]
-  exact pop1_ok c _ frames h [.bool (!truthy c.pop.2)] rfl (by simp [Core.push, Core.release]) (by simp [Core.push, Core.release, g1])
-    (by simp [Core.push, Core.release, h1])
-
-theorem cast_bool_ok (m : Module) (fr : Frame) (c : Core) (frames : List Frame) (is : Nat) (args : List Nat) (h : HeapOk c frames) :
-    HeapOk (execData' m fr c is .CAST_BOOL args).1 frames := by
-  obtain ⟨g1, h1⟩ := pop_fields c
-  simp only [execData', cont]
-  exact pop1_ok c _ frames h [.bool (truthy c.pop.2)] rfl (by simp [Core.push, Core.release]) (by simp [Core.push, Core.release, g1])
-    (by simp [Core.push, Core.release, h1])
-
-theorem jmp_false_ok (m : Module) (fr : Frame) (c : Core) (frames : List Frame) (is : Nat) (args : List Nat) (h : HeapOk c frames) :
-    HeapOk (execData' m fr c is .JMP_FALSE args).1 frames := by
-  obtain ⟨g1, h1⟩ := pop_fields c
-  simp only [execData', cont]
-  refine pop1_ok c _ frames h [] rfl ?_ ?_ ?_ <;> split <;> simp [Core.release, g1, h1]
-
-theorem jmp_true_ok (m : Module) (fr : Frame) (c : Core) (frames : List Frame) (is : Nat) (args : List Nat) (h : HeapOk c frames) :
-    HeapOk (execData' m fr c is .JMP_TRUE args).1 frames := by
-  obtain ⟨g1, h1⟩ := pop_fields c
-  simp only [execData', cont]
-  refine pop1_ok c _ frames h [] rfl ?_ ?_ ?_ <;> split <;> simp [Core.release, g1, h1]
-
-theorem jmp_ok (m : Module) (fr : Frame) (c : Core) (frames : List Frame) (is : Nat) (args : List Nat) (h : HeapOk c frames) :
-    HeapOk (execData' m fr c is .JMP args).1 frames := by
-  simp only [execData', cont]
-  exact heapOk_congr c _ frames rfl rfl rfl h
-
-theorem assert_ok (m : Module) (fr : Frame) (c : Core) (frames : List Frame) (is : Nat) (args : List Nat) (h : HeapOk c frames) :
-    HeapOk (execData' m fr c is .ASSERT args).1 frames := by
-  obtain ⟨g1, h1⟩ := pop_fields c
-  simp only [execData']
-  split
-  · simp only [cont]
-    exact pop1_ok c _ frames h [] rfl (by simp [Core.release]) (by simp [Core.release, g1]) (by simp [Core.release, h1])
-  · simp only [errS]
-    exact pop1_ok c _ frames h [] rfl (by simp [Core.release]) (by simp [Core.release, g1]) (by simp [Core.release, h1])
-
-theorem print_ok (m : Module) (fr : Frame) (c : Core) (frames : List Frame) (is : Nat) (args : List Nat) (ln : Bool) (h : HeapOk c frames) :
-    HeapOk (execData' m fr c is (if ln then .PRINTLN else .PRINT) args).1 frames := by
-  obtain ⟨g1, h1⟩ := pop_fields c
-  cases ln <;> simp only [Bool.false_eq_true, if_false, if_true, execData'] <;> split
-  all_goals first
-    | (simp only [unsup]
-       exact consume_ok2 c _ frames h c.pop.1.stack [] (by
-         intro x; have := pop_count c x
-         simp only [refsOf_append, List.count_append, refsOf_nil, List.count_nil] at this ⊢; omega) rfl g1 (by rw [h1]; rfl))
-    | (simp only [cont]
-       exact pop1_ok c _ frames h [] rfl (by simp [Core.release]) (by simp [Core.release, g1]) (by simp [Core.release, h1]))
-
-theorem neg_ok (m : Module) (fr : Frame) (c : Core) (frames : List Frame) (is : Nat) (args : List Nat) (h : HeapOk c frames) :
-    HeapOk (execData' m fr c is .NEG args).1 frames := by
-  obtain ⟨g1, h1⟩ := pop_fields c
-  have drop : ∀ news : List Val, refsOf news = [] → ∀ c' : Core, c'.stack = c.pop.1.stack ++ news → c'.globals = c.globals → c'.heap = c.heap →
-      HeapOk c' frames := by
-    intro news hn c' hs hg hh
-    refine consume_ok2 c c' frames h (c.pop.1.stack ++ news) [] ?_ hs hg (by rw [hh]; rfl)
-    intro x; have := pop_count c x
-    simp only [refsOf_append, List.count_append, refsOf_nil, List.count_nil, hn] at this ⊢; omega
-  simp only [execData']
-  split
-  · rename_i x hx
-    simp only [cont]; exact drop [.int (-x)] rfl _ (by simp [Core.push]) (by simp [Core.push, g1]) (by simp [Core.push, h1])
-  · simp only [unsup]; exact drop [] rfl _ (by simp) g1 h1
-  · simp only [errS]; exact drop [] rfl _ (by simp) g1 h1
-
-/-- retain a value that is void or already a root (a stack slot or a global) and push it:
-    LOAD_LOCAL, LOAD_GLOBAL and DUP have this shape -/
-theorem load_root_ok (c : Core) (frames : List Frame) (v : Val) (hv : v = .void ∨ v ∈ c.stack ∨ v ∈ c.globals) (h : HeapOk c frames) :
-    HeapOk ((c.retain v).push v) frames := by
-  have hlive : ∀ a, v.addr? = some a → a ∈ c.heap.keys := by
-    intro a ha
-    rcases hv with hv | hm | hm
-    · rw [hv] at ha; cases ha
-    · apply h.closed a
-      simp only [refsOf_nil, List.append_nil, List.mem_append]
-      left
-      show a ∈ List.filterMap Val.addr? (rootsOf c frames)
-      exact List.mem_filterMap.mpr ⟨_, by unfold rootsOf; simp [hm], ha⟩
-    · apply h.closed a
-      simp only [refsOf_nil, List.append_nil, List.mem_append]
-      left
-      show a ∈ List.filterMap Val.addr? (rootsOf c frames)
-      exact List.mem_filterMap.mpr ⟨_, by unfold rootsOf; simp [hm], ha⟩
-  obtain ⟨r1, r2, r3, r4, r5⟩ := retain_inv (rootsOf c frames) c.heap v [] h.nodup h.rc h.closed hlive
-  have hroots : rootsOf ((c.retain v).push v) frames
-      = c.stack ++ [v] ++ c.globals ++ frames.filterMap (fun fr => fr.closure.map Val.clos) := by
-    simp [rootsOf, Core.push, Core.retain]
-  have hheap : ((c.retain v).push v).heap = c.heap.retain v := by
-    simp [Core.push, Core.retain]
-  refine ⟨by rw [hheap]; exact r3, ?_, by rw [hheap, r4]; exact h.clean, ?_, ?_⟩
-  · intro k hk
-    rw [hheap] at hk ⊢
-    rw [r5]
-    have : (c.heap.retain v).keys = c.heap.keys := by
-      unfold Heap.retain
-      cases v.addr? with
-      | none => rfl
-      | some a =>
-        simp only
-        cases c.heap.get? a with
-        | none => rfl
-        | some cell => simp only; exact keys_set _ _ _
-    rw [this] at hk
-    exact h.fresh k hk
-  · rw [hheap, hroots]
-    refine RcInv_of_count (rootsOf c frames) _ _ [v] [] ?_ r1
-    intro x
-    simp only [rootsOf, refsOf_append, List.count_append, refsOf_nil, List.count_nil]
-    omega
-  · rw [hheap, hroots]
-    refine Closed_of_mem (rootsOf c frames) _ _ [v] [] ?_ r2
-    intro x hx
-    simp only [rootsOf, refsOf_append, List.mem_append, refsOf_nil, List.not_mem_nil, or_false] at hx ⊢
-    rcases hx with ((h1 | h1) | h1) | h1
-    · exact Or.inl (Or.inl (Or.inl h1))
-    · exact Or.inr h1
-    · exact Or.inl (Or.inl (Or.inr h1))
-    · exact Or.inl (Or.inr h1)
-
-theorem getD_mem_or_void (l : List Val) (i : Nat) : l.getD i .void = .void ∨ l.getD i .void ∈ l := by
-  rw [List.getD_eq_getElem?_getD]
-  cases hl : l[i]? with
-  | none => left; rfl
-  | some v => right; exact List.mem_of_getElem? hl
-
-theorem load_local_ok (m : Module) (fr : Frame) (c : Core) (frames : List Frame) (is : Nat) (args : List Nat) (h : HeapOk c frames) :
-    HeapOk (execData' m fr c is .LOAD_LOCAL args).1 frames := by
-  simp only [execData']
-  split
-  · simp only [errS]; exact h
-  · simp only [cont]
-    apply load_root_ok c frames _ _ h
-    rcases getD_mem_or_void c.stack (u32 (fr.stackBase + args.getD 0 0)) with hv | hv
-    · exact Or.inl hv
-    · exact Or.inr (Or.inl hv)
-
-theorem load_global_ok (m : Module) (fr : Frame) (c : Core) (frames : List Frame) (is : Nat) (args : List Nat) (h : HeapOk c frames) :
-    HeapOk (execData' m fr c is .LOAD_GLOBAL args).1 frames := by
-  simp only [execData']
-  split
-  · simp only [errS]; exact h
-  · simp only [cont]
-    apply load_root_ok c frames _ _ h
-    rcases getD_mem_or_void c.globals (args.getD 0 0) with hv | hv
-    · exact Or.inl hv
-    · exact Or.inr (Or.inr hv)
-
-theorem refs_count_set (l : List Val) (i : Nat) (v : Val) (hi : i < l.length) (x : Nat) :
-    (refsOf (l.set i v)).count x + (refsOf [l.getD i .void]).count x = (refsOf l).count x + (refsOf [v]).count x := by
-  induction l generalizing i with
-  | nil => simp at hi
-  | cons a r ih =>
-    cases i with
-    | zero =>
-      simp only [List.set_cons_zero, List.getD_cons_zero, refsOf_cons, refsOf_nil, List.count_append, List.append_nil]
-      omega
-    | succ j =>
-      have := ih j (by simpa using hi)
-      simp only [List.set_cons_succ, List.getD_cons_succ, refsOf_cons, refsOf_nil, List.count_append, List.append_nil] at this ⊢
-      omega
-
-theorem store_local_ok (m : Module) (fr : Frame) (c : Core) (frames : List Frame) (is : Nat) (args : List Nat) (h : HeapOk c frames) :
-    HeapOk (execData' m fr c is .STORE_LOCAL args).1 frames := by
-  obtain ⟨g1, h1⟩ := pop_fields c
-  simp only [execData']
-  generalize u32 (fr.stackBase + args.getD 0 0) = k
-  split
-  · simp only [errS]; exact h
-  · simp only [Core.release]
-    by_cases hlt : k < c.pop.1.stack.length
-    · simp only [hlt, if_true, cont]
-      refine consume_ok2 c _ frames h (c.pop.1.stack.set k c.pop.2) [c.pop.1.stack.getD k c.pop.2] ?_ rfl g1 (by simp [releaseAll, h1])
-      intro x
-      have e : c.pop.1.stack.getD k c.pop.2 = c.pop.1.stack.getD k .void := by
-        rw [List.getD_eq_getElem?_getD, List.getD_eq_getElem?_getD, List.getElem?_eq_getElem hlt]; rfl
-      rw [e]
-      have a := refs_count_set c.pop.1.stack k c.pop.2 hlt x
-      have b := pop_count c x
-      simp only [List.count_append] at a b ⊢
-      omega
-    · simp only [hlt, if_false, cont]
-      have e : c.pop.1.stack.getD k c.pop.2 = c.pop.2 := by
-        rw [List.getD_eq_getElem?_getD, List.getElem?_eq_none (by omega)]; rfl
-      rw [e]
-      refine pop1_ok c _ frames h [] rfl (by simp) g1 (by simp [h1])
-
-/-- integer arithmetic (ADD SUB MUL DIV MOD on two ints): two non-references replaced by one -/
-theorem arith_int_ok (s : Core) (frames : List Frame) (op : Opc) (hop : op = .ADD ∨ op = .SUB ∨ op = .MUL ∨ op = .DIV ∨ op = .MOD)
-    (x y : I64) (h : HeapOk ((s.push (.int x)).push (.int y)) frames) :
-    HeapOk (binArith ((s.push (.int x)).push (.int y)) op).1 frames := by
-  have e : ∃ r : I64, binArith ((s.push (.int x)).push (.int y)) op = cont (s.push (.int r)) := by
-    unfold binArith
-    have hp : ∀ (c : Core) (v : Val), (c.push v).pop = (c, v) := by intro c v; simp [Core.push, Core.pop]
-    simp only [hp]
-    rcases hop with rfl | rfl | rfl | rfl | rfl <;> simp only [coerceEnum] <;> exact ⟨_, rfl⟩
-  obtain ⟨r, e⟩ := e
-  rw [e]
-  simp only [cont]
-  refine consume_ok2 _ _ frames h (s.stack ++ [.int r]) [] ?_ (by simp [Core.push]) (by simp [Core.push]) (by simp [Core.push, releaseAll])
-  intro x
-  simp [Core.push, refsOf_append, refsOf_cons, List.count_append, Val.addr?]
-
-/-- **every instruction the code generator emits for the scalar fragment keeps the heap invariant**
-    (the fragment of C01's compiler-correctness theorems: constants, local and global variable access,
-    assignment, unary and comparison operators, jumps, conversions to bool, printing, assertions, POP, DUP),
-    whatever the operands are and also when the stack is too short -/
-theorem scalar_fragment_ok (m : Module) (fr : Frame) (c : Core) (frames : List Frame) (is : Nat) (args : List Nat) (op : Opc)
-    (hop : op ∈ [Opc.PUSH_I64, .PUSH_BOOL, .PUSH_VOID, .LOAD_LOCAL, .LOAD_GLOBAL, .STORE_LOCAL, .NEG, .NOT, .EQ, .NE, .LT, .LE, .GT, .GE,
-                 .AND, .OR, .JMP, .JMP_TRUE, .JMP_FALSE, .CAST_BOOL, .PRINT, .PRINTLN, .ASSERT, .POP, .DUP])
-    (h : HeapOk c frames) : HeapOk (execData' m fr c is op args).1 frames := by
-  simp only [List.mem_cons, List.mem_nil_iff, or_false] at hop
-  rcases hop with rfl | rfl | rfl | rfl | rfl | rfl | rfl | rfl | rfl | rfl | rfl | rfl | rfl | rfl | rfl | rfl | rfl | rfl | rfl | rfl | rfl | rfl | rfl | rfl | rfl
-  · simp only [execData', cont]; exact push_scalar_ok c frames _ rfl h
-  · simp only [execData', cont]; exact push_scalar_ok c frames _ rfl h
-  · simp only [execData', cont]; exact push_scalar_ok c frames _ rfl h
-  · exact load_local_ok m fr c frames is args h
-  · exact load_global_ok m fr c frames is args h
-  · exact store_local_ok m fr c frames is args h
-  · exact neg_ok m fr c frames is args h
-  · exact not_ok m fr c frames is args h
-  · simp only [execData']; exact binCompare_ok c frames _ h
-  · simp only [execData']; exact binCompare_ok c frames _ h
-  · simp only [execData']; exact binCompare_ok c frames _ h
-  · simp only [execData']; exact binCompare_ok c frames _ h
-  · simp only [execData']; exact binCompare_ok c frames _ h
-  · simp only [execData']; exact binCompare_ok c frames _ h
-  · simp only [execData']; exact binCompare_ok c frames _ h
-  · simp only [execData']; exact binCompare_ok c frames _ h
-  · exact jmp_ok m fr c frames is args h
-  · exact jmp_true_ok m fr c frames is args h
-  · exact jmp_false_ok m fr c frames is args h
-  · exact cast_bool_ok m fr c frames is args h
-  · exact print_ok m fr c frames is args false h
-  · exact print_ok m fr c frames is args true h
-  · exact assert_ok m fr c frames is args h
-  · simp only [execData', cont]; exact pop_ok c frames h
-  · simp only [execData', cont]; exact dup_ok c frames h
-
-/- non-vacuity: a state with a shared string (two stack slots, count 2) satisfies the invariant -/
-example : HeapOk { stack := [.str 0, .str 0, .int 5], heap := { cells := [(0, { rc := 2, obj := .str [104] })], next := 1 } } [] := by
-  refine ⟨by decide, by decide, rfl, ?_, ?_⟩
+/- non-vacuity: a state with a string shared by two stack slots and by an array element (count 3), and the
+   array held by a global, satisfies the invariant -/
+example : HeapOk { stack := [.str 0, .str 0, .int 5], globals := [.arr 1],
+                   heap := { cells := [(0, { rc := 3, obj := .str [104] }), (1, { rc := 1, obj := .arr 0 [.str 0] })], next := 2 } } := by
+  refine ⟨by decide, by decide, rfl, ?_, ?_, ?_⟩
   · intro p hp
-    simp only [List.mem_singleton] at hp
-    subst hp; decide
+    simp only [List.mem_cons, List.mem_nil_iff, or_false] at hp
+    rcases hp with rfl | rfl <;> decide
   · intro a ha
-    have : a = 0 := by
+    have : a = 0 ∨ a = 1 := by
       simp [rootsOf, refsOf, heapRefs, Val.addr?, Obj.kids] at ha
-      exact ha
-    subst this; decide
+      omega
+    rcases this with rfl | rfl <;> decide
+  · constructor
+    · intro v hv a c ha hm
+      simp [rootsOf] at hv
+      simp only [List.mem_cons, List.mem_nil_iff, or_false] at hm
+      rcases hv with rfl | rfl | rfl <;> rcases hm with hm | hm <;> simp_all [Val.addr?, Val.okind, Obj.kind]
+    · intro p hp v hv a c ha hm
+      simp only [List.mem_cons, List.mem_nil_iff, or_false] at hp hm
+      rcases hp with rfl | rfl <;> simp [Obj.kids] at hv
+      subst hv
+      rcases hm with hm | hm <;> simp_all [Val.addr?, Val.okind, Obj.kind]
+
+/- and a state whose count is too low does not -/
+example : ¬ HeapOk { stack := [.str 0, .str 0], heap := { cells := [(0, { rc := 1, obj := .str [104] })], next := 1 } } := by
+  intro h
+  have := h.rc (0, { rc := 1, obj := .str [104] }) (by simp)
+  revert this; decide
 
 end NanoVerif.C14
